@@ -351,6 +351,28 @@ class Level2:
         if is_reverse_slice(e):
             c, b = self.ev(e.value, depth + 1)
             return (c ^ 1, b)
+        if isinstance(e, (ast.List, ast.Tuple)) and e.elts and len(e.elts) <= 2:
+            # a literal list of texts freshly formatted from a drawn amplitude index (MSB first: no reversal of the listing's)
+            res = None
+            for el in e.elts:
+                x = el
+                if isinstance(x, ast.Name):
+                    ds = [d_ for d_ in self.defs_of(x.id) if d_.value is not None]
+                    if len(ds) != 1:
+                        raise Und(f"`{x.id}` is not a single freshly formatted text")
+                    x = ds[0].value
+                fl = 0
+                while is_reverse_slice(x):
+                    fl ^= 1
+                    x = x.value
+                fresh = (isinstance(x, ast.Call) and dotted(x.func) == "format" and len(x.args) == 2 and "b" in norm(x.args[1])) or (isinstance(x, ast.Call) and (dotted(x.func) or "").split(".")[-1] == "binary_repr") or (isinstance(x, ast.JoinedStr) and any(isinstance(v, ast.FormattedValue) and v.format_spec is not None and "b" in norm(v.format_spec) for v in x.values))
+                if not fresh:
+                    raise Und(f"unrecognised list element {short(el, 50)}")
+                r = (0, getattr(self, "pi_key", 0) ^ fl)
+                if res is not None and r != res:
+                    raise Und("list elements with different orientations")
+                res = r
+            return res
         if isinstance(e, ast.Call):
             d = dotted(e.func) or ""
             base = e.func.attr if isinstance(e.func, ast.Attribute) else d.split(".")[-1]
@@ -496,6 +518,8 @@ def check_sampling(ctx, pi_key: int, pi_b2t: int):
     keys_name, probs_raw = (norm(x) for x in listing.targets[0].elts)
     d = Defs(fi.node)
     branches = [n for n in fi.node.body if isinstance(n, ast.If) and any(isinstance(c, ast.Call) and (dotted(c.func) or "").endswith("choice") for c in ast.walk(n))]
+    early_ifs = [n for n in branches if not n.orelse and any(isinstance(x, ast.Return) for y in n.body for x in ast.walk(y))]
+    branches = [n for n in branches if n not in early_ifs]
     if len(branches) != 1 or not branches[0].orelse:
         # single regime is fine too: analyse the whole body as one branch
         regions = [("single", list(fi.node.body))]
@@ -503,8 +527,25 @@ def check_sampling(ctx, pi_key: int, pi_b2t: int):
         regions = [("many-samples", branches[0].body), ("few-samples", branches[0].orelse)]
     conv = {"convert_bitstrings_to_tuples": pi_b2t, "bitstring_to_tuple": pi_b2t}
     results = {}
+    # early exits: a top-level `if <case>: ... return <samples>` ahead of the two regimes is one more sampling path with its own conversions
+    all_rets = returned_exprs(fi.node)
+    early_rets = set()
+    for st in fi.node.body:
+        if st in early_ifs:
+            inside = [r for r in all_rets if any(x is r for y in st.body for x in ast.walk(y))]
+            if len(inside) == 1 and any(isinstance(c, ast.Call) and (dotted(c.func) or "").endswith("choice") for y in st.body for c in ast.walk(y)):
+                early_rets.add(id(inside[0]))
+                lv = Level2(fi.node, keys_name, conv, st.body)
+                lv.pi_key = pi_key
+                lab = "early-exit:" + norm(st.test)[:40]
+                try:
+                    c, b = lv.ev(inside[0])
+                    total = (pi_key + b) % 2
+                    ctx.check(total == 0, R1, fi.key + f":{lab}:bit-order", "the early exit hands out tuples whose position q is qubit q", f"the early exit under `{short(st.test)}` turns a drawn amplitude index into a tuple through {b} reversal(s) while the key listing of get_outcome_probs applies {pi_key}: position q of the sampled tuple is qubit n-1-q on that path only", f"{fi.module.relpath}:{inside[0].lineno}")
+                except Und as e:
+                    ctx.undecided(R1, fi.key + f":{lab}", f"cannot follow the drawn index to the returned samples on the early exit: {e}", fi)
     for label, region in regions:
-        rets = returned_exprs(fi.node)
+        rets = [r for r in all_rets if id(r) not in early_rets]
         if len(rets) != 1:
             ctx.undecided(R1, fi.key + f":{label}", "expected a single return", fi)
             return
@@ -864,6 +905,13 @@ def check_simulator(ctx):
 def run(ctx):
     from ..lints import check_stale_loop_variables
 
+    # the views of a state are computed from its current amplitudes on every request: a query method that remembers its result on the
+    # (mutable, assignable) wavefunction keeps describing the old state after an accepted assignment, while the other views move on
+    from ..state import check_hidden_state
+    from .c20 import effects_for as _eff
+
+    wq = [f for f in ctx.repo.module("wavefunction").functions.values() if f.cls is not None and f.name not in ("__init__", "__setitem__", "__post_init__")]
+    check_hidden_state(ctx, "C04-D10 views-not-remembered", wq, _eff(ctx), receiver_caches=True)
     check_stale_loop_variables(ctx, "C04-D9 loop-variables", ['wavefunction', 'measurements.measurements', 'measurements.parities', 'utils', 'operators._openfermion_utils.sparse_tools', 'distributions._measurement_outcome_distribution', 'circuits._unitary_tools'])
     repo = ctx.repo
     try:
